@@ -10,7 +10,8 @@ RULE = ("case = one generated configuration (2-8 arguments over flag/int/long/un
         "abbreviations on or off) + one VALID abstract command line (ordered uses with intended values, values at type "
         "limits) rendered in up to 8 (quick) / 24 (thorough) legal spellings: canonical, all-short, all-long, all '=', "
         "all glued, maximal flag grouping, unambiguous abbreviations, random mixes, each with a random permutation of the "
-        "uses of distinct arguments. scenario = one (configuration, argv) execution on the real handler (ASan+UBSan build). "
+        "uses of distinct arguments; a quarter of the cases get a tail '<multi-value list as separate words> <flag> <free value of the "
+        "positional argument>' with all key spellings of list and flag. scenario = one (configuration, argv) execution on the real handler (ASan+UBSan build). "
         "Oracle: every scenario is accepted, every destination equals the python model's expected value (doubles within 1 ulp), "
         "unused destinations keep their initial value, all spellings agree. non-trivial = at least 2 uses and argv differs from "
         "the canonical spelling; distinct = hash of (configuration, argv).")
@@ -39,7 +40,28 @@ def gen_case(seed, idx, tier):
         c.skip = "no-valid-line"
         return c
     nsp = 8 if tier == "quick" else 24
-    c.meta.update(cfg=cfg, uses=uses, argvs=[], exp=argh.expected(cfg, uses))
+    exp = argh.expected(cfg, uses)
+    # optional tail: a multi-value list spelled as separate words (first value attached, glued or as next word), ended by a
+    # value-less flag (any spelling), followed by the free value of the positional argument
+    tail_variants = None
+    if rng.random() < 0.25 and not any(a.keyspec() == "-" or a.short in ("M", "Q") or (a.long or "").startswith("zz-") for a in cfg.args):
+        mv = argh.Arg("vi9", "M", "zz-multi-values")
+        mv.multi, mv.init = True, []
+        qf = argh.Arg("b9", "Q", "zz-quiet-flag")
+        qf.init = "0"
+        pa = argh.Arg("s9", None, None, spec="-")
+        pa.init = "none"
+        cfg.args += [mv, qf, pa]
+        vals = [str(rng.randint(0, 99)) for _ in range(rng.randint(1, 4))]
+        free = rng.choice(["out.txt", "7", "x", "12"])
+        abbr = not (cfg.flags & argh.HF["noAbbr"])
+        keys = [["-M", vals[0]], ["-M" + vals[0]], ["--zz-multi-values", vals[0]], ["--zz-multi-values=" + vals[0]]] + ([["--zz-m", vals[0]], ["--zz-mul=" + vals[0]]] if abbr else [])
+        flags = ["-Q", "--zz-quiet-flag"] + (["--zz-q", "--zz-quiet"] if abbr else [])
+        tail_variants = [k + vals[1:] + [f, free] for k in keys for f in flags]
+        if len(vals) >= 3:
+            tail_variants.append(["-M", vals[0] + "," + vals[1]] + vals[2:] + ["-Q", free])
+        exp.update({"vi9": [int(v) for v in vals], "b9": True, "s9": free})
+    c.meta.update(cfg=cfg, uses=uses, argvs=[], exp=exp, tail=tail_variants is not None)
     seen = set()
     for k in range(nsp):
         style = STYLES[k] if k < len(STYLES) else {}
@@ -53,6 +75,8 @@ def gen_case(seed, idx, tier):
             words, st = argh.spell_line(cfg, order, rng, style)
         except argh.ModelAbstain:
             continue
+        if tail_variants:
+            words = words + tail_variants[(k + idx) % len(tail_variants)]
         key = "\x00".join(words)
         if key in seen:
             continue
@@ -70,6 +94,8 @@ def judge(c, results, rep):
         for k, v in st.items():
             rep.stat("spell." + k, v)
         rep.stat("uses", len(uses))
+        if c.meta.get("tail"):
+            rep.stat("spell.tail_multi_values_flag_positional")
         if canon is None:
             canon = words
         if len(uses) >= 2 and words != canon:
